@@ -25,7 +25,7 @@ from fractions import Fraction
 
 import intconv
 from vlib import (INT_TYPES, UBSAN_ENV, Driver, cxx, finish, kv, pmap, promote, prove, rng_for, run, ty_hi, ty_lo,
-                  workdir, SAN_CLANG, SAN_GCC, LEAN, lake_build)
+                  workdir, LEAN, link_cmd)
 
 PROP = "C05"
 if hasattr(sys, "set_int_max_str_digits"):
@@ -575,8 +575,13 @@ static void parse_in(bool is_int, const char* s, In& in) {
     if (is_int) in.i = p128(s); else in.f = strtold(s, nullptr);
 }
 static std::string val_str(bool t_int, const Out& o) { return t_int ? s128(o.vi) : sld(o.vf); }
-static inline unsigned long long fnv_byte(unsigned long long h, unsigned b) { return (h ^ (unsigned long long)(b & 0xff)) * 1099511628211ull; }
-static inline unsigned long long fnv_u64(unsigned long long h, unsigned long long v) { for (int i = 0; i < 8; ++i) h = fnv_byte(h, unsigned(v >> (8 * i))); return h; }
+#if defined(__clang__)
+#define NOSAN __attribute__((no_sanitize("integer")))
+#else
+#define NOSAN
+#endif
+NOSAN static inline unsigned long long fnv_byte(unsigned long long h, unsigned b) { return (h ^ (unsigned long long)(b & 0xff)) * 1099511628211ull; }
+NOSAN static inline unsigned long long fnv_u64(unsigned long long h, unsigned long long v) { for (int i = 0; i < 8; ++i) h = fnv_byte(h, unsigned(v >> (8 * i))); return h; }
 static i128 lo_of(int bits, int sg) { return sg ? -((i128)1 << (bits - 1)) : 0; }
 static i128 hi_of(int bits, int sg) { return sg ? ((i128)1 << (bits - 1)) - 1 : ((i128)1 << bits) - 1; }
 
@@ -683,8 +688,8 @@ int main() {
                 }
             }
             printf("S %s n=%ld hash=%llu novf=%ld ntrunc=%ld nlossy=%ld ubseen=%d ncleared=%ld bad_ovf=%ld first_ovf=%s bad_clear=%ld first_clear=%s "
-                   "bad_lossy=%ld bad_agree=%ld ub_unexplained=%ld first_ub=%s firstub=%s\n", a[1], cnt, h, novf, ntr, nlossy, nub ? 1 : 0, ncleared,
-                   bad_ovf, f_ovf.c_str(), bad_clear, f_clear.c_str(), bad_lossy, bad_agree, ub_unexplained, f_ub.c_str(), f_chkub.c_str());
+                   "bad_lossy=%ld bad_agree=%ld ub_unexplained=%ld first_ub=%s firstub=%s nubv=%ld\n", a[1], cnt, h, novf, ntr, nlossy, nub ? 1 : 0, ncleared,
+                   bad_ovf, f_ovf.c_str(), bad_clear, f_clear.c_str(), bad_lossy, bad_agree, ub_unexplained, f_ub.c_str(), f_chkub.c_str(), nub);
         } else if (a[0][0] == 'F' && n >= 5) {
             // F id N D p     (integral S of <= 16 bits, floating T = common type with p significand bits)
             const Entry* e = find(atoi(a[1])); if (!e || !e->s_int || e->t_int || e->s_bits > 16) { puts("bad"); fflush(stdout); continue; }
@@ -800,8 +805,7 @@ def build_harness(wd, insts, compiler, std, tag, nchunks=16):
     if rc != 0:
         return None, failed, {"src": "main.cc", "output": out[-4000:]}
     exe = os.path.join(wd, f"harness_{tag}")
-    san = SAN_CLANG if compiler.startswith("clang") else SAN_GCC
-    rc, out, err = run([compiler] + san + XFLAGS + [good[n] for n in names] + [good["casts"], obj, "-o", exe])
+    rc, out, err = run(link_cmd(compiler, [good[n] for n in names] + [good["casts"], obj], exe, extra=XFLAGS))
     if rc != 0:
         return None, failed, {"src": "link", "output": (out + err)[-4000:]}
     return exe, failed, detail
@@ -1034,10 +1038,16 @@ def stage_ok_int(ins, x):
     return (cl <= x <= ch and pl <= y <= ph and cl * d <= y <= ch * d and tl <= q <= th), q, y % d == 0
 
 
-def compare_point(ins, r, mm, b):
+def compare_point(ins, r, mm, b, exact=False):
     """Model vs implementation on one P answer, at the abstraction level of the property."""
     t = ins["T"]
     if b == "bad-op":
+        return False
+    # sanitizer reports inside the checkers must be explained by the model (truncCheckerEvent); in the exact-count build
+    # they must coincide with it
+    if int(r["ubc"]) > 0 and mm.get("chk") != "1":
+        return False
+    if exact and mm.get("chk") == "1" and int(r["ubc"]) == 0:
         return False
     if mm["ovf"] == "ub":
         return False                       # the model's overflow pipeline never evaluates anything undefined
@@ -1094,11 +1104,12 @@ def explore(tier, seed, rng, wd, only=None, only_casts=None):
     live = [i for i in insts if i["compiles"]]
     dead = [i for i in insts if not i["compiles"]]
     stats["noncompiling"] = len(dead)
-    configs = [("g++", "c++14", "g14")]
+    # g++ with ASan + UBSan (full runtime: a source location is reported once per process), and "exact" = clang++-14 with
+    # the exact-count UBSan handlers of vlib (every undefined operation / unsigned wrap is counted, per input).
+    std2 = ["c++14", "c++17", "c++20"][seed % 3]
+    configs = [("g++", "c++14", "g14"), ("exact", std2, "x" + std2[-2:])]
     if tier == "thorough":
-        configs += [("clang++-14", ["c++14", "c++17", "c++20"][seed % 3], "cl")]
-    elif seed % 2 == 1:
-        configs = [("clang++-14", ["c++14", "c++17", "c++20"][(seed // 2) % 3], "cl")]
+        configs += [("clang++-14", ["c++14", "c++17", "c++20"][(seed + 1) % 3], "cl")]
     if _REPLAY_CONFIG:
         configs = [_REPLAY_CONFIG]
     npts = 40 if tier == "quick" else 250
@@ -1117,6 +1128,33 @@ def explore(tier, seed, rng, wd, only=None, only_casts=None):
     stats["timing"]["generate"] = round(time.time() - t0, 1)
     samples = []
     distinct = set()
+    all_reqs = []   # dicts: kind, ins, h (harness lines), hn, m (model lines), w (weight), xs
+    for i in live:
+        s, t, c = i["S"], i["T"], i["C"]
+        if is_int(s) and INT_TYPES[s][1] <= 16 and "xs" not in i:
+            cnt = 1 << INT_TYPES[s][1]
+            if is_int(t):
+                _, cb, cs = INT_TYPES[c]
+                _, tb, ts = INT_TYPES[t]
+                all_reqs.append({"kind": "S", "ins": i, "h": [f"S {i['id']} {i['N']} {i['D']} {cb} {int(cs)} {tb} {int(ts)}"], "hn": 1,
+                             "m": [f"c05 sweep {s} {t} {i['N']} {i['D']}"], "w": cnt})
+            else:
+                all_reqs.append({"kind": "F", "ins": i, "h": [f"F {i['id']} {i['N']} {i['D']} {FLT[t][1]}"], "hn": 1, "m": [], "w": cnt})
+        if not is_int(c):
+            pf = pf_text(i["D"], 1) if (i["N"] == 1 and i["D"] != 1) else i["pf"]
+            all_reqs.append({"kind": "G", "ins": i, "h": [f"G {i['id']}"], "hn": 1, "m": [f"c05 gv {c} {pf}"], "w": 1})
+        xs = pts[i["id"]]
+        if xs:
+            all_reqs.append({"kind": "B", "ins": i, "xs": xs, "h": [f"B {i['id']} {len(xs)}"] + [x_text_impl(s, x) for x in xs], "hn": len(xs),
+                         "m": [model_req(i, x) for x in xs], "w": len(xs) * (3 if is_int(c) else 12)})
+    for (s, t), xs in cpts.items():
+        for x in xs:
+            all_reqs.append({"kind": "K", "S": s, "T": t, "x": x, "h": [f"K {s} {t} {x_text_impl(s, x)}"], "hn": 1,
+                         "m": [f"c05 cast {s} {t} {x_text_model(s, x)}"], "w": 1})
+    tq = time.time()
+    _m = run_sharded(driver_runner(drv), [(r["m"], len(r["m"]), r["w"]) for r in all_reqs])
+    all_mans = {id(r): a for r, a in zip(all_reqs, _m)}
+    stats["timing"]["driver"] = round(time.time() - tq, 1)
     for (compiler, std, tag) in configs:
         cfg = f"{compiler} -std={std}"
         tq = time.time()
@@ -1134,40 +1172,14 @@ def explore(tier, seed, rng, wd, only=None, only_casts=None):
             continue
         rej_ids = {i["id"] for i in rejected}
         stats["rejected_by_compiler"] = stats.get("rejected_by_compiler", 0) + len(rejected)
-        stats["configs"].append(cfg)
+        stats["configs"].append(cfg + (" (clang++-14, exact-count UBSan handlers, no ASan)" if compiler == "exact" else ""))
         stats["timing"][f"build_{tag}"] = round(time.time() - tq, 1)
-        reqs = []       # dicts: kind, ins, h (harness lines), hn, m (model lines), w (weight), xs
-        for i in live:
-            if i["id"] in rej_ids:
-                continue
-            s, t, c = i["S"], i["T"], i["C"]
-            if is_int(s) and INT_TYPES[s][1] <= 16 and "xs" not in i:
-                cnt = 1 << INT_TYPES[s][1]
-                if is_int(t):
-                    _, cb, cs = INT_TYPES[c]
-                    _, tb, ts = INT_TYPES[t]
-                    reqs.append({"kind": "S", "ins": i, "h": [f"S {i['id']} {i['N']} {i['D']} {cb} {int(cs)} {tb} {int(ts)}"], "hn": 1,
-                                 "m": [f"c05 sweep {s} {t} {i['N']} {i['D']}"], "w": cnt})
-                else:
-                    reqs.append({"kind": "F", "ins": i, "h": [f"F {i['id']} {i['N']} {i['D']} {FLT[t][1]}"], "hn": 1, "m": [], "w": cnt})
-            if not is_int(c):
-                pf = pf_text(i["D"], 1) if (i["N"] == 1 and i["D"] != 1) else i["pf"]
-                reqs.append({"kind": "G", "ins": i, "h": [f"G {i['id']}"], "hn": 1, "m": [f"c05 gv {c} {pf}"], "w": 1})
-            xs = pts[i["id"]]
-            if xs:
-                reqs.append({"kind": "B", "ins": i, "xs": xs, "h": [f"B {i['id']} {len(xs)}"] + [x_text_impl(s, x) for x in xs], "hn": len(xs),
-                             "m": [model_req(i, x) for x in xs], "w": len(xs) * (3 if is_int(c) else 12)})
-        for (s, t), xs in cpts.items():
-            for x in xs:
-                reqs.append({"kind": "K", "S": s, "T": t, "x": x, "h": [f"K {s} {t} {x_text_impl(s, x)}"], "hn": 1,
-                             "m": [f"c05 cast {s} {t} {x_text_model(s, x)}"], "w": 1})
+        reqs = [r for r in all_reqs if r.get("ins", {}).get("id") not in rej_ids]
+        mans = [all_mans[id(r)] for r in reqs]
         errs = []
         tq = time.time()
         hans = run_sharded(harness_runner(exe, errs), [(r["h"], r["hn"], r["w"]) for r in reqs])
         stats["timing"][f"harness_{tag}"] = round(time.time() - tq, 1)
-        tq = time.time()
-        mans = run_sharded(driver_runner(drv), [(r["m"], len(r["m"]), r["w"]) for r in reqs])
-        stats["timing"][f"driver_{tag}"] = round(time.time() - tq, 1)
         tq = time.time()
         for rq, ha, ma in zip(reqs, hans, mans):
             kind = rq["kind"]
@@ -1218,7 +1230,11 @@ def explore(tier, seed, rng, wd, only=None, only_casts=None):
                     samples.append({"request": rq["h"][0], "harness": a, "model": b})
                 # A sanitizer report inside a checker must be explained by the model (it predicts UB there); the converse is
                 # not required: g++ narrows `(uint16_t)(int * int)` to unsigned arithmetic before instrumenting it.
-                if any(r[k] != mm[k] for k in ("n", "hash", "novf", "ntrunc", "nlossy", "ncleared")) or (r["ubseen"] == "1" and mm["ubseen"] != "1"):
+                # The exact-count build sees every signed overflow / unsigned wrap inside the checkers: it must coincide
+                # with the model's truncCheckerEvent, value by value (count and first value).
+                evt_bad = (r["ubseen"] == "1" and mm["nevt"] == "0") or \
+                    (compiler == "exact" and (r["nubv"] != mm["nevt"] or r["firstub"] != mm["firstevt"]))
+                if any(r[k] != mm[k] for k in ("n", "hash", "novf", "ntrunc", "nlossy", "ncleared")) or evt_bad:
                     # locate the first differing value
                     first = None
                     lo_s = ty_lo(s)
@@ -1227,7 +1243,7 @@ def explore(tier, seed, rng, wd, only=None, only_casts=None):
                         hx = run_sharded(harness_runner(exe, []), [([f"B {ins['id']} {len(sub['xs'])}"] + [str(x) for x in sub["xs"]], len(sub["xs"]), 1)])[0]
                         mx = drv.ask([model_req(ins, x) for x in sub["xs"]])
                         for x, aa, bb in zip(sub["xs"], hx, mx):
-                            if not compare_point(ins, kv(aa), kv(bb), bb):
+                            if not compare_point(ins, kv(aa), kv(bb), bb, compiler == "exact"):
                                 first = {"x": str(x), "impl": aa, "model": bb}
                                 break
                     except Exception as ex:     # noqa: BLE001
@@ -1289,7 +1305,7 @@ def explore(tier, seed, rng, wd, only=None, only_casts=None):
                     distinct.add((s, t, n, d))
                     if len(samples) < 10 and r["lossy"] == "0" and x not in (0, 1, -1) and (len(samples) % 2 == 0) == is_int(s):
                         samples.append({"request": model_req(ins, x), "model": b, "harness": a})
-                    if not compare_point(ins, r, mm, b):
+                    if not compare_point(ins, r, mm, b, compiler == "exact"):
                         add_violation({"what": f"model and implementation differ: {s}->{t} x {n}/{d} at x={xs}", "class": "corr-point", "no_input": True,
                                        "broken": "correspondence: c05 conv", "rec": dict(rec, observable="corr", model=b, impl=a)})
                     for ob, msg, extra in judge(ins, x, r):
